@@ -104,6 +104,7 @@ mutual
     | .date a, .date b => .ok (a == b)
     | .tdelta a, .tdelta b => .ok (a == b)
     | .cdelta a, .cdelta b => .ok (a == b)
+    | .fdt a, .fdt b => .ok (a == b)
     | .nat, .nat => .ok true                              -- `x is y`
     | .list xs, .list ys => seqBranch xs.length ys.length (zipR xs ys)              -- :72
     | .tuple xs, .tuple ys => seqBranch xs.length ys.length (zipR xs ys)            -- :72
